@@ -1372,7 +1372,8 @@ class Ctx:
                 # constant expressions: rustc evaluates them at compile time and rejects overflow, so plain arithmetic
                 cop = {"+": "+", "-": "-", "*": "*", "/": "/", "%": "%", "<<": "<<<", ">>": ">>>"}[op]
                 return lines, f"({la} {cop} {ra})", lt
-            prim = {"+": f"uadd (2 ^ {bits})", "-": "usub", "*": f"umul (2 ^ {bits})", "/": "udiv", "%": "urem",
+            bname = {"u8": "U8", "u16": "U16", "u32": "U32", "usize": "Usize", "u64": "Usize", "i32": "U32"}[lt] + ".bound"
+            prim = {"+": f"uadd {bname}", "-": "usub", "*": f"umul {bname}", "/": "udiv", "%": "urem",
                     "<<": f"ushl {bits}", ">>": f"ushr {bits}"}[op]
             t = self.fresh()
             return lines + [f"let {t} ← {prim} {la} {ra}"], t, lt
